@@ -107,7 +107,14 @@ fn main() {
                 if let Some(sc) = m.get("asched") {
                     // replay one access schedule (from a FINE counterexample)
                     let sched: Vec<usize> = sc.split(',').filter(|x| !x.is_empty()).map(|x| x.parse().unwrap()).collect();
-                    ex.run(&mut conc::Strategy::Access(0, sched), &opts, vec![]);
+                    let r = ex.run(&mut conc::Strategy::Access(0, sched), &opts, vec![]);
+                    // solot=<t> solofrom=<n>: the schedule is a FINE `Freeze` counterexample (bin/freeze.py): after
+                    // its first n accesses only thread t runs.  Emit the solo event of t's in-flight call (C21).
+                    if let (Some(t), false) = (m.get("solot").map(|x| x.parse::<usize>().unwrap()), r.runaway) {
+                        if let Some(e) = conc::solo_event_of(&r, t, geti(&m, "solofrom", 0)) {
+                            ex.out_push(e);
+                        }
+                    }
                 } else {
                     ex.dfs(geti(&m, "bound", 2), &opts, geti(&m, "limit", 4000));
                 }
